@@ -14,10 +14,12 @@ EXTENDS ProofsMC
 (*   witness classes: 0, 1, 2, max (largest admissible value), lz (a value     *)
 (*   whose big endian encoding is shorter than the group order's), rand;       *)
 (*   l0 (schv only): l = 0 with a random s;  key (pai, mod, fac): the witness  *)
-(*   is the factorisation of a vendored modulus                                *)
-WClasses == {"0", "1", "2", "max", "lz", "rand", "l0", "key"}
+(*   is the factorisation of a vendored modulus;  key / keyrev (dln): the      *)
+(*   vendored h1, h2 with their exponent, in both directions                   *)
+WClasses == {"0", "1", "2", "max", "lz", "rand", "l0", "key", "keyrev"}
 SessClasses == {"empty", "short", "long"}
-HasSession(s) == s \in {"sch", "schv", "mod", "fac", "bob", "bobwc"}
+(* pai has no session but a number k (the prover's party key) that enters its challenge: empty -> 0, short -> 1, long -> 512 bits *)
+HasSession(s) == s \in {"sch", "schv", "pai", "mod", "fac", "bob", "bobwc"}
 Curves(s) == IF s \in {"sch", "schv"} THEN {"secp256k1", "ed25519"}
              ELSE IF s \in {"fac", "alice", "bob", "bobwc"} THEN {"secp256k1"} ELSE {"-"}
 ParamSets(s) == CASE s \in {"sch", "schv"} -> 0 [] s \in {"dln", "pai", "mod"} -> 1 [] OTHER -> 2
@@ -26,11 +28,12 @@ ParamSets(s) == CASE s \in {"sch", "schv"} -> 0 [] s \in {"dln", "pai", "mod"} -
 ToyOrd(s) == CASE s \in {"alice", "bob", "bobwc"} -> 3 [] s = "dln" -> 15 [] OTHER -> 7
 ToyW(s, cls) ==
   CASE cls = "0" -> 0 [] cls = "1" -> 1 [] cls = "2" -> 2 [] cls = "max" -> ToyOrd(s) - 1
-    [] cls = "lz" -> (IF ToyOrd(s) > 3 THEN 3 ELSE 1) [] OTHER -> (ToyOrd(s) \div 2) + 1
+    [] cls = "lz" -> (IF ToyOrd(s) > 3 THEN 3 ELSE 1) [] cls = "key" -> 7 [] cls = "keyrev" -> 13   \* 7 * 13 = 1 mod 15
+    [] OTHER -> (ToyOrd(s) \div 2) + 1
 
-ToyRuns(s, cls) ==
+ToyRuns(s, cls, id) ==
   LET v == ToyW(s, cls) w == FALSE IN
-  CASE s = "sch"  -> { r \in Dom_sch(w) : r.par.q = 7 /\ r.x = v }
+  CASE s = "sch"  -> { r \in Dom_sch(w) : r.par.q = 7 /\ r.x = v /\ r.par.idrep = id }
     [] s = "schv" -> { [sys |-> "schv", par |-> [q |-> 7, idrep |-> FALSE], R |-> 3, s |-> ss, l |-> l, a |-> 2, b |-> 2, c |-> c] :
                          ss \in {IF cls = "l0" THEN 4 ELSE v}, l \in {IF cls = "l0" THEN 0 ELSE IF cls = "0" THEN 4 ELSE v},
                          c \in 1..6 }
@@ -39,26 +42,28 @@ ToyRuns(s, cls) ==
     [] s \in {"bob", "bobwc"} -> { r \in (IF s = "bob" THEN Dom_bob(w) ELSE Dom_bobwc(w)) : r.x = v /\ r.rn.alpha = 11 /\ r.rn.beta = 3 /\ r.r = 2 }
     [] OTHER -> { r \in (CASE s = "pai" -> Dom_pai(w) [] s = "mod" -> Dom_mod(w) [] OTHER -> {d \in Dom_fac(w) : Keep_fac(d)}) :
                    cls = "key" /\ (s = "pai" => r.xs[1] < 5) /\ (s = "mod" => r.Y[1] < 6) /\ (s = "fac" => r.r.alpha < 3) }
-RowOK(s, cls) ==
+RowOK(s, cls, id) ==
   /\ (cls = "l0") => (s = "schv")
-  /\ (cls = "key") <=> (s \in {"pai", "mod", "fac"})
-  /\ ToyW(s, cls) < ToyOrd(s)
-  /\ ToyRuns(s, cls) # {}
-  /\ \A r \in ToyRuns(s, cls) :
+  /\ (cls = "key") => (s \in {"pai", "mod", "fac", "dln"})
+  /\ (s \in {"pai", "mod", "fac"}) => (cls = "key")
+  /\ (cls = "keyrev") => (s = "dln")
+  /\ (cls \notin {"key", "keyrev"} => ToyW(s, cls) < ToyOrd(s))
+  /\ ToyRuns(s, cls, id) # {}
+  /\ \A r \in ToyRuns(s, cls, id) :
        LET st == St(r) IN
-       /\ (s = "sch" => st.X # 0)
+       /\ (s = "sch" => id \/ st.X # 0)
        /\ (s = "schv" => st.V # 0)
        /\ (s = "bobwc" => st.X # 0)
        /\ (s = "dln" => FailSet(Guards(s, r.par, st, Pf(r))) \cap {"h1_range", "h2_range", "h1_ne_h2"} = {})
        /\ (Produced(r) /\ GapSet(r) = {} /\ ~PanicGap(r) /\ ~RejGap(r) => Outcome(s, r.par, st, Pf(r), Ch(r)) = "acc")
 
 (* zero-arity: TLC evaluates it once, when it loads the module *)
-Adm == [s \in Systems |-> {cls \in WClasses : RowOK(s, cls)}]
+Adm == [s \in Systems |-> [id \in BOOLEAN |-> {cls \in WClasses : RowOK(s, cls, id)}]]
 Catalogue(S) ==
   { [sys |-> s, wclass |-> cls, sess |-> se, curve |-> cv, psets |-> ParamSets(s),
      expect |-> "acc", expect_parts |-> WireParts(s, RealK(s))] :
       s \in S, cls \in WClasses, se \in SessClasses \cup {"-"}, cv \in {"secp256k1", "ed25519", "-"} }
-Keep(r) == /\ r.wclass \in Adm[r.sys]
+Keep(r) == /\ r.wclass \in Adm[r.sys][r.curve = "ed25519"]
            /\ r.curve \in Curves(r.sys)
            /\ (IF HasSession(r.sys) THEN r.sess \in SessClasses ELSE r.sess = "-")
 
